@@ -116,13 +116,14 @@ Record world := mkWorld {
   g_claim : list (N * ent * list pitem);            (* ghost: (ticket, system, entries claimed) per successful setup *)
   g_runs : list (ent * N * N);                      (* ghost: (system, Local, captured counter) logged by every body, in order *)
   g_oruns : list ent;                               (* ghost: one entry per run of the inner system of a `once` wrapper *)
+  g_auto : list ent;                                (* ghost: entities for which an auto-despawn signal was ever prepared *)
   (* observation *)
   log : list ev;
 }.
 #[export] Instance eta_world : Settable _ := settable! mkWorld
   <alive; comps; storage; cbs; ereactors; dtrackers; dataents; xlocals; resvals; removed; removed_seq; generation; next_ent;
    sigs; next_sig; gc_chan; comp_tbl; desp_tbl; any_tbl; res_tbl; bc_tbl; removal_checkers; despawn_chan;
-   counter; buffer; ticket_ctr; tr_ev; tr_se; tr_er; tr_de; bound; tokens; spawned; g_prep; g_claim; g_runs; g_oruns; log>.
+   counter; buffer; ticket_ctr; tr_ev; tr_se; tr_er; tr_de; bound; tokens; spawned; g_prep; g_claim; g_runs; g_oruns; g_auto; log>.
 
 Definition FIRST_INTERNAL : N := 1000000.
 Definition PLACEHOLDER : N := 500000.
@@ -136,7 +137,7 @@ Definition init_world : world := {|
   comp_tbl := []; desp_tbl := []; any_tbl := []; res_tbl := []; bc_tbl := []; removal_checkers := []; despawn_chan := [];
   counter := 0; buffer := []; ticket_ctr := 0;
   tr_ev := empty_trk 0; tr_se := empty_trk 0; tr_er := empty_trk (0, 0, RIns UNIT_TY); tr_de := empty_trk (0, None);
-  bound := []; tokens := []; spawned := []; g_prep := []; g_claim := []; g_runs := []; g_oruns := []; log := [] |}.
+  bound := []; tokens := []; spawned := []; g_prep := []; g_claim := []; g_runs := []; g_oruns := []; g_auto := []; log := [] |}.
 
 Definition emit (e : ev) (w : world) : world := w <| log ::= fun l => l ++ [e] |>.
 Definition note_claim (k : N) (s : ent) (items : list pitem) (w : world) : world := w <| g_claim ::= fun l => l ++ [(k, s, items)] |>.
@@ -147,7 +148,7 @@ Definition is_alive (e : ent) (w : world) : bool := memN e (alive w).
 
 (* ---------- Arc<AutoDespawnSignalInner> (src/ecs/auto_despawn.rs:12-37) ---------- *)
 Definition sig_new (e : ent) (w : world) : N * world :=
-  let g := next_sig w in (g, w <| next_sig := g + 1 |> <| sigs ::= fun l => l ++ [(g, (e, 1))] |>).
+  let g := next_sig w in (g, w <| next_sig := g + 1 |> <| sigs ::= fun l => l ++ [(g, (e, 1))] |> <| g_auto ::= cons e |>).
 Definition sig_clone (g : N) (w : world) : world :=
   match alookup g (sigs w) with
   | Some (e, n) => w <| sigs := aset g (e, n + 1) (sigs w) |>
